@@ -81,6 +81,11 @@ fn grid(tier: Tier) -> Vec<C18World> {
         w.op = op.into();
         g.push(w);
     }
+    for (n, op, stack) in [(100_000u64, "union", 2u64 << 20), (240_000, "xor", 8 << 20)] {
+        let mut w = base("boolean_stairs", stack, n, "asc", "drop");
+        w.op = op.into();
+        g.push(w);
+    }
     if tier == Tier::Thorough {
         for td in TEARDOWNS.iter() {
             for sh in ["asc", "desc", "zigzag"] {
@@ -370,6 +375,26 @@ pub fn comb(teeth: u64) -> Polygon<f64> {
     Polygon::new(LineString(pts), vec![])
 }
 
+/// `n` rectangles in a staircase going down and to the right: the sweep line is filled top-down (every new
+/// segment below all earlier ones: a chain leaning the other way) and the topmost segments leave first, so
+/// removals and neighbour queries inside a real operation hit the far end of the chain. No early stop (union/xor).
+fn stairs_scenario(w: &C18World) {
+    let n = w.n;
+    let polys: Vec<Polygon<f64>> = (0..n).map(|i| {
+        let (x0, x1, y1) = (i as f64, (2 * n + i) as f64, -2.0 * i as f64);
+        let y0 = y1 - 1.0;
+        Polygon::new(LineString(vec![Coord { x: x0, y: y0 }, Coord { x: x1, y: y0 }, Coord { x: x1, y: y1 }, Coord { x: x0, y: y1 }, Coord { x: x0, y: y0 }]), vec![])
+    }).collect();
+    let a = MultiPolygon(polys);
+    // a detached square inside the staircase's bounding box (so the bounding-box shortcut is not taken)
+    let bx = (2 * n + n / 2) as f64;
+    let b = MultiPolygon(vec![Polygon::new(LineString(vec![
+        Coord { x: bx, y: -1.75 }, Coord { x: bx + 0.25, y: -1.75 }, Coord { x: bx + 0.25, y: -1.25 }, Coord { x: bx, y: -1.25 }, Coord { x: bx, y: -1.75 }]), vec![])]);
+    marker(&format!("boolean stairs {} rects={} edges={}", w.op, n, 4 * n + 4));
+    let r = if w.op == "xor" { a.xor(&b) } else { a.union(&b) };
+    marker(&format!("returned polygons={}", r.0.len()));
+}
+
 fn boolean_scenario(w: &C18World) {
     let teeth = w.n;
     let c = comb(teeth);
@@ -408,6 +433,7 @@ pub fn child_main(arg: &str) -> i32 {
         match w.kind.as_str() {
             "tree" => tree_scenario(&w, T::new(pk_cmp as fn(&PK, &PK) -> Ordering)),
             "set" => tree_scenario(&w, S::new(pk_cmp as fn(&PK, &PK) -> Ordering)),
+            "boolean_stairs" => stairs_scenario(&w),
             _ => boolean_scenario(&w),
         }
         depth()
@@ -439,8 +465,8 @@ impl World for C18World {
         }
         let mut r = Rng::stream(seed, "workload");
         let big = if tier == Tier::Thorough { 3_000_000 } else { 1_500_000 };
-        let kind = *r.pick(&["tree", "set", "tree", "set", "boolean"]);
-        let n = if kind == "boolean" { 20_000 + r.below(130_000) } else { 100_000 + r.below(big) };
+        let kind = *r.pick(&["tree", "set", "tree", "set", "tree", "set", "boolean", "boolean_stairs"]);
+        let n = if kind.starts_with("boolean") { 20_000 + r.below(130_000) } else { 100_000 + r.below(big) };
         let mut fr = Rng::stream(seed, "faults");
         C18World {
             kind: kind.into(),
@@ -452,7 +478,7 @@ impl World for C18World {
             post_count: 1 + r.below(2000),
             teardown: (*r.pick(&TEARDOWNS)).into(),
             partial: r.below(n + 1),
-            op: (*r.pick(&["intersection", "difference"])).into(),
+            op: if kind == "boolean_stairs" { (*r.pick(&["union", "xor"])).into() } else { (*r.pick(&["intersection", "difference"])).into() },
             first: (*r.pick(&FIRSTS)).into(),
         }
     }
@@ -495,7 +521,7 @@ impl World for C18World {
         st.inc("child_processes");
         st.inc(&format!("stack_budget_{}MiB", self.stack_bytes >> 20));
         st.inc(&format!("kind_{}", self.kind));
-        if self.kind != "boolean" {
+        if !self.kind.starts_with("boolean") {
             st.inc(&format!("teardown_{}", self.teardown));
             st.add("keys_inserted", self.n);
             if self.teardown.starts_with("partial") {
@@ -550,7 +576,7 @@ impl World for C18World {
         push(&|w| { w.post = "none".into(); w.post_count = 0 });
         push(&|w| w.shape = "asc".into());
         push(&|w| w.first = "none".into());
-        push(&|w| if w.kind != "boolean" { w.teardown = "drop".into() });
+        push(&|w| if !w.kind.starts_with("boolean") { w.teardown = "drop".into() });
         push(&|w| if w.kind == "set" { w.kind = "tree".into() });
         push(&|w| { w.n = (w.n / 2).max(1); w.partial = w.partial.min(w.n) });
         push(&|w| { w.n = (w.n * 3 / 4).max(1); w.partial = w.partial.min(w.n) });
@@ -560,7 +586,7 @@ impl World for C18World {
     }
 
     fn signature(&self) -> String {
-        format!("c18:{}:{}:{}:{}:{}", self.kind, self.shape, if self.kind == "boolean" { &self.op } else { &self.teardown }, self.first, self.stack_bytes >> 20)
+        format!("c18:{}:{}:{}:{}:{}", self.kind, self.shape, if self.kind.starts_with("boolean") { &self.op } else { &self.teardown }, self.first, self.stack_bytes >> 20)
     }
 }
 
